@@ -55,6 +55,11 @@ CHECKS = {
            'expressions and multi-value initialisers, init functions that run once and before main, a goroutine started from init; every variable initialiser and init function calls the yield intrinsic, and each dynamic yield is a '
            'symbolic boolean, so the prescribed order is decided for EVERY subset of suspending initialisers (a suspended initialiser is never overtaken). go:linkname to a function, a value method and a pointer method with the import '
            'graph pointing either way; the three unsupported uses must make the real build fail (plain observation).', 'DESIGN.md §4 C10'),
+ 'C11': tv('20 templates importing gopherjs/js: symbolic Go values are passed to JavaScript as property values, call arguments, results of exposed functions and fields of a struct wrapping a JavaScript object, and read back; the real '
+           '$externalize / $internalize / $externalizeFunction / $sliceToNativeArray and the js.Object call translation are executed symbolically. Round trip is the identity for bool, all integer widths (64-bit within +-2^53), every float64/float32 '
+           '(NaN, signed zero), every valid UTF-8 string up to 4 bytes (JavaScript sees the UTF-16 of the same code points); typed-array class, length and elements for every numeric slice type and all windows of a backing array; Arrays, Objects, '
+           'map[string]any, documented dynamic types of .Interface(), nil/null/undefined, wrapper identity of functions, converted arguments/results, blocking in a JavaScript callback fails with the documented error. Counterexamples are confirmed by '
+           'evaluating the reference on the real gopherjs+node output (there is no native counterpart).', 'DESIGN.md §4 C11'),
  'C13': tv('Overrides are exercised through templates importing math, math/bits, sync/atomic, unicode and gopherjs/nosync (the real overlay merge builds them): bits.Add32 (Mul32/Div32/Rem32 in the thorough tier), '
            'atomic Add/Swap/CompareAndSwap/Load/Store on int32/uint32/uintptr/int64 vs their sequential specification, nosync Mutex/RWMutex/WaitGroup/Once/Map/Pool histories chosen by symbolic selectors '
            '(panic exactly where sync would block), unicode case-mapping laws, and math Floor/Ceil/Trunc/Sqrt/Copysign/Signbit/IsNaN/IsInf/Min/Max for every float64 in the SMT FloatingPoint theory.', 'DESIGN.md §4 C13'),
